@@ -104,6 +104,19 @@ CLAIMED = {
         technique="Rocq proof (finite-table evaluation + corollary of the C01 round trip) + translator-regenerated catalogue/data items + in-Coq differential correspondence",
         design="5/C03",
     ),
+    "C05": dict(
+        text="Theorems (Props/C05.v), for every history: the model of HsmsProtocol's session handling (over the connection state machine regenerated from "
+             "connection_state_machine.py and run by the engine model) refines an independent E37 reference step by step from every reachable state "
+             "(C05_step_refines_e37, C05_state_follows_e37: same state, same frames, deliveries and resolved requesters); every Select/Deselect/Linktest "
+             "request in a connected state gets exactly one answer, the matching response with its system bytes or a Reject while closing "
+             "(C05_requests_answered); data while not SELECTED: one Reject reason 4, no delivery, no change (C05_data_gate); well-formed data while SELECTED "
+             "delivered (C05_data_delivered); the state is always one of the three (C05_three_states). Separate.req is refuted (C05_separate_refuted, known "
+             "finding). Tied to the code by driving a real HsmsProtocol with its own threads through random/directed histories in passive and active mode.",
+        note=NOTE_COMMON + " Partial on 'schedules': the accept-path ordering (state entered before the receive threads start) is checked by a directed history "
+             "with a Select.req already buffered, not proven over thread interleavings; T5-T8 timers are outside the model.",
+        technique="Rocq proof (step simulation + invariant over all histories) + translator-regenerated state machine + in-Coq differential correspondence on a threaded rig",
+        design="5/C05",
+    ),
 }
 
 NOT_YET = {}
